@@ -39,8 +39,8 @@ theorem execute_full {cfg : Cfg} {d : Disc} {st : State} {xs : List (Arr × Opti
     (hsj : ∀ f heap j, P f →
       P (f.storeJac heap (xs.map (·.1)) h ((xs.map (·.1)).map Cell.val) j))
     (hP : P st.full) : P (execute cfg d st xs h).1.full := by
-  have hxc : inputCells cfg true xs = (xs.map (·.1)).map Cell.val := by
-    unfold inputCells; exact inputCellsAux_val hcow _ _ _
+  have hxc : ∀ heap, inputCells cfg true heap xs = (xs.map (·.1)).map Cell.val :=
+    fun heap => inputCells_eq hcow true heap xs
   unfold execute
   simp only []
   split_ifs
@@ -48,7 +48,7 @@ theorem execute_full {cfg : Cfg} {d : Disc} {st : State} {xs : List (Arr × Opti
     simp only [hcoh, if_true]
     exact hP
   · unfold execMiss
-    simp only [hcow, if_true, hxc]
+    simp only [cow_byRef hcow, Bool.false_eq_true, if_false, hxc]
     have h2 : P (missState cfg d { st with hasJac := false } xs).full := by
       rw [(missState_fields cfg d _ xs).2.1]; exact hP
     have h3 := cacheStoreOutputs_full (cfg := cfg) (x := xs.map (·.1)) (h := h)
@@ -63,8 +63,8 @@ theorem linTail_full {cfg : Cfg} {d : Disc} {st1 : State} {all : Bool}
     (hsj : ∀ f heap j, P f →
       P (f.storeJac heap (xs.map (·.1)) h ((xs.map (·.1)).map Cell.val) j))
     (hP : P st1.full) : P (linTail cfg d st1 all xs h).1.full := by
-  have hxc : inputCells cfg false xs = (xs.map (·.1)).map Cell.val := by
-    unfold inputCells; exact inputCellsAux_val hcow _ _ _
+  have hxc : ∀ heap, inputCells cfg false heap xs = (xs.map (·.1)).map Cell.val :=
+    fun heap => inputCells_eq hcow false heap xs
   unfold linTail
   split_ifs
   · exact hP
@@ -269,8 +269,8 @@ theorem execMiss_logged {cfg : Cfg} {d : Disc} {st : State} {xs : List (Arr × O
     (hk : cfg.kind.isFull = true) (hcow : cfg.cow = true) (hinv : Inv d st) :
     ∃ i e, (execMiss cfg d st xs h).1.full.entry? i = some e ∧ vals e.inputs = xs.map (·.1) ∧
       e.outputs.isSome = true := by
-  have hxc : inputCells cfg true xs = (xs.map (·.1)).map Cell.val := by
-    unfold inputCells; exact inputCellsAux_val hcow _ _ _
+  have hxc : ∀ heap, inputCells cfg true heap xs = (xs.map (·.1)).map Cell.val :=
+    fun heap => inputCells_eq hcow true heap xs
   have hf2 : FullOK d st.runLog st.jacLog (missState cfg d st xs).full := by
     rw [(missState_fields cfg d st xs).2.1]; exact hinv.full
   obtain ⟨i, e, h1, h2, h3⟩ := storeOutputs_has (heap := (missState cfg d st xs).heap)
@@ -287,7 +287,7 @@ theorem execMiss_logged {cfg : Cfg} {d : Disc} {st : State} {xs : List (Arr × O
     | memory sh => rfl
     | hdf5 => rfl
   unfold execMiss
-  simp only [hcow, if_true, hxc]
+  simp only [cow_byRef hcow, Bool.false_eq_true, if_false, hxc]
   split_ifs
   · have hext : Ext (cacheStoreOutputs cfg (missState cfg d st xs) (xs.map (·.1)) h
         ((xs.map (·.1)).map Cell.val) ((d.run (xs.map (·.1))).map Cell.val)).full
@@ -356,8 +356,8 @@ theorem linTail_runInv {hf : Vals → Nat} {cfg : Cfg} {d : Disc} {st1 : State} 
     {xs : List (Arr × Option Nat)} {h : Nat} (hcow : cfg.cow = true)
     (hh : h = hf (xs.map (·.1))) (h1 : RunInv hf d st1) :
     RunInv hf d (linTail cfg d st1 all xs h).1 := by
-  have hxc : inputCells cfg false xs = (xs.map (·.1)).map Cell.val := by
-    unfold inputCells; exact inputCellsAux_val hcow _ _ _
+  have hxc : ∀ heap, inputCells cfg false heap xs = (xs.map (·.1)).map Cell.val :=
+    fun heap => inputCells_eq hcow false heap xs
   unfold linTail
   split_ifs
   · exact h1
@@ -537,5 +537,95 @@ theorem reachFrom_ext {cfg : Cfg} {d : Disc} (ops : List Op) (st : State)
     simp only [List.foldl_cons]
     have hne : op ≠ .clear := fun hc => hnc (by simp [hc])
     exact (step_ext op hcow hcoh hne).trans (ih _ (fun hc => hnc (List.mem_cons_of_mem _ hc)))
+
+/-! ### The entry written by an execution that runs the body (in-place bodies included) -/
+
+theorem execHit_nRun {cfg : Cfg} {st : State} {x : Vals} {h : Nat} {oc : List Cell} {cj : Jac}
+    (hcoh : cfg.coh = true) : (execHit cfg st x h oc cj).1.nRun = st.nRun := by
+  unfold execHit
+  simp only [hcoh, if_true]
+
+/-- An execution either hits (the body does not run, the run counter is unchanged) or is `execMiss`. -/
+theorem execute_cases {cfg : Cfg} {d : Disc} {st : State} {xs : List (Arr × Option Nat)} {h : Nat}
+    (hcoh : cfg.coh = true) :
+    (execute cfg d st xs h).1.nRun = st.nRun ∨
+      execute cfg d st xs h = execMiss cfg d { st with hasJac := false } xs h := by
+  unfold execute
+  simp only []
+  split_ifs
+  · left; exact execHit_nRun hcoh
+  · right; trivial
+
+/-- After a miss with a full cache, the cache has an entry whose inputs are the values the input
+    arrays had **before** the body ran, and whose outputs are the outputs of the body at these
+    values — whatever the body wrote into its input arrays (`d.wr` is arbitrary). -/
+theorem execMiss_entry {cfg : Cfg} {d : Disc} {st : State} {xs : List (Arr × Option Nat)} {h : Nat}
+    (hk : cfg.kind.isFull = true) (hcow : cfg.cow = true) (hinv : Inv d st)
+    (hj0 : st.hasJac = false) :
+    ∃ i e oc, (execMiss cfg d st xs h).1.full.entry? i = some e ∧ vals e.inputs = xs.map (·.1) ∧
+      e.outputs = some oc ∧ vals oc = d.run (xs.map (·.1)) := by
+  obtain ⟨i, e, h1, h2, h3⟩ := execMiss_logged (xs := xs) (h := h) hk hcow hinv
+  have hinv' := (execMiss_post (xs := xs) (h := h) hcow hinv hj0).inv
+  have hok := hinv'.full e (entry?_mem h1)
+  cases ho : e.outputs with
+  | none => simp [ho] at h3
+  | some oc =>
+    obtain ⟨_, hv, _⟩ := hok.outOK oc ho
+    exact ⟨i, e, oc, h1, h2, ho, by rw [hv, h2]⟩
+
+theorem simple_storeOutputs_inputs {heap : List Arr} {s : Simple} {x : Vals} {xc oc : List Cell}
+    (hs : AllVal s.inputs) (hxv : vals xc = x) : vals (s.storeOutputs heap x xc oc).inputs = x := by
+  unfold Simple.storeOutputs
+  split
+  · rename_i hc
+    have hx0 := isCached_zero hs hc
+    split <;> exact hx0.symm
+  · exact hxv
+
+theorem simple_storeJac_inputs {heap : List Arr} {s : Simple} {x : Vals} {xc : List Cell} {j : Jac}
+    (hs : AllVal s.inputs) (hxv : vals xc = x) : vals (s.storeJac heap x xc j).inputs = x := by
+  unfold Simple.storeJac
+  split
+  · rename_i hc
+    have hx0 := isCached_zero hs hc
+    split <;> exact hx0.symm
+  · exact hxv
+
+/-- After a miss with a `SimpleCache`, the stored inputs are the values the input arrays had before
+    the body ran, and the stored outputs (if any) are the outputs of the body at these values. -/
+theorem execMiss_simple_entry {cfg : Cfg} {d : Disc} {st : State} {xs : List (Arr × Option Nat)}
+    {h : Nat} (hk : cfg.kind = .simple) (hcow : cfg.cow = true) (hinv : Inv d st)
+    (hj0 : st.hasJac = false) :
+    vals (execMiss cfg d st xs h).1.simple.inputs = xs.map (·.1) ∧
+      ((execMiss cfg d st xs h).1.simple.outputs ≠ [] →
+        vals (execMiss cfg d st xs h).1.simple.outputs = d.run (xs.map (·.1))) := by
+  have hinv' := (execMiss_post (xs := xs) (h := h) hcow hinv hj0).inv
+  have hin : vals (execMiss cfg d st xs h).1.simple.inputs = xs.map (·.1) := by
+    have hxe := inputCells_eq hcow true (missState cfg d st xs).heap xs
+    have hm : AllVal (missState cfg d st xs).simple.inputs := by
+      rw [(missState_fields cfg d st xs).1]; exact hinv.simple.inVal
+    unfold execMiss
+    simp only [cow_byRef hcow, Bool.false_eq_true, if_false, hxe]
+    have h3 : vals (cacheStoreOutputs cfg (missState cfg d st xs) (xs.map (·.1)) h
+        ((xs.map (·.1)).map Cell.val) ((d.run (xs.map (·.1))).map Cell.val)).simple.inputs =
+        xs.map (·.1) := by
+      unfold cacheStoreOutputs
+      simp only [hk]
+      exact simple_storeOutputs_inputs hm (vals_map_val _)
+    have hv3 : AllVal (cacheStoreOutputs cfg (missState cfg d st xs) (xs.map (·.1)) h
+        ((xs.map (·.1)).map Cell.val) ((d.run (xs.map (·.1))).map Cell.val)).simple.inputs := by
+      unfold cacheStoreOutputs
+      simp only [hk]
+      unfold Simple.storeOutputs
+      split
+      · split <;> exact hm
+      · exact allVal_map_val _
+    split_ifs
+    · unfold cacheStoreJac
+      simp only [hk]
+      exact simple_storeJac_inputs hv3 (vals_map_val _)
+    · exact h3
+  refine ⟨hin, fun hne => ?_⟩
+  rw [(hinv'.simple.outOK hne).1, hin]
 
 end GV.C05
